@@ -138,6 +138,14 @@ func c02GenericPrograms(rng *core.Rand, n int, start int) []*progCase {
 	return out
 }
 
+// a generic union and a generic record of the constraint-shape functions (declared in their prelude)
+var c02GOpt = &fo.UnionDef{Name: "GOpt", Generic: true, TArg: fo.TVar("T"), Cases: []fo.UCase{{Name: "GSome", Payload: fo.TVar("T")}, {Name: "GNone"}}}
+var c02GBox = &fo.RecordDef{Name: "GBox", Generic: true, Fields: []fo.Field{{Name: "GItem", T: fo.TVar("T")}, {Name: "GCnt", T: fo.TInt}}}
+var c02GenericPrelude = []fo.Decl{
+	&fo.RawDecl{Names: []string{"GOpt", "GSome", "GNone"}, Text: "type GOpt<T> =\n| GSome of T\n| GNone"},
+	&fo.RawDecl{Names: []string{"GBox", "GItem", "GCnt"}, Text: "type GBox<T> = {GItem: T; GCnt: int}"},
+}
+
 // c02Shape builds one unannotated function whose body is a sequence of lets that put
 // constraints on the parameters in a random order - each parameter is first tied to a
 // structured type of its own (slice / tuple / function) and parameters are unified with
@@ -168,7 +176,13 @@ func c02Shape(rng *core.Rand, name string) *fo.FuncDef {
 	for i := 0; i < n*3 && len(lets) < n; i++ {
 		x, y := pick(), pick()
 		var e fo.Expr
-		switch rng.Intn(14) {
+		switch rng.Intn(17) {
+		case 14:
+			e = &fo.Ctor{Union: c02GOpt, Case: 0, Arg: v(x)}
+		case 15:
+			e = &fo.RecLit{Rec: c02GBox, Fields: []fo.Expr{v(x), &fo.IntLit{V: 1}}}
+		case 16:
+			e = &fo.SliceLit{Elems: []fo.Expr{&fo.Ctor{Union: c02GOpt, Case: 0, Arg: v(x)}, &fo.Ctor{Union: c02GOpt, Case: 0, Arg: v(y)}}}
 		case 0, 1:
 			e = call("slice.Head", v(x))
 		case 2:
@@ -343,7 +357,7 @@ func runC02(r *core.Run, tier string) {
 		for _, p := range f.Params {
 			pnames = append(pnames, p.Name)
 		}
-		vp := &fo.Program{Pkg: "main", Imports: []string{"frt", "slice"}, Decls: []fo.Decl{f}}
+		vp := &fo.Program{Pkg: "main", Imports: []string{"frt", "slice"}, Decls: append(append([]fo.Decl{}, c02GenericPrelude...), f)}
 		variants = append(variants, &c02Variant{base: -1, mask: 1<<len(f.Params) - 1, src: fo.Print(vp, nil), name: f.Name, params: pnames, want: normSig(hm.GoSignature(f.Name, pnames, sc))})
 		r.Count("constraint_shape_functions", 1)
 	}
